@@ -1177,13 +1177,23 @@ func (h *handler) handleLocked(ctx context.Context, nextCid cid.Cid, sel ipld.No
 	}
 
 	var syncedCount int
-	// Blocks that the current segment has handed to the hook.
-	segSeen := make(map[cid.Cid]struct{})
+	// Blocks that the current segment has handed to the hook, with their
+	// position in the segment, and the position of the block whose hook call
+	// was the last to name a next CID.
+	segSeen := make(map[cid.Cid]int)
+	var namedAt int
 	hook := func(p peer.ID, c cid.Cid) {
 		syncedCount++
 		if bh != nil {
-			segSeen[c] = struct{}{}
+			pos := len(segSeen)
+			if _, ok := segSeen[c]; !ok {
+				segSeen[c] = pos
+			}
+			named := segSync.nextSyncCid
 			bh(p, c, segSync)
+			if segSync.nextSyncCid != named {
+				namedAt = pos
+			}
 		}
 	}
 
@@ -1260,6 +1270,7 @@ SegSyncLoop:
 		nextCid = *segSync.nextSyncCid
 		segSync.reset()
 		clear(segSeen)
+		namedAt = 0
 		err := syncer.Sync(ctx, nextCid, segmentSel)
 		if err != nil {
 			return 0, err
@@ -1276,11 +1287,13 @@ SegSyncLoop:
 			break
 		}
 
-		// The last call of the cycle named a block that this segment has
-		// synced itself: the hook made no call for the blocks after it (the
-		// documented way to end the sync at the end of a chain), there is
-		// nothing to continue with.
-		if _, ok := segSeen[*segSync.nextSyncCid]; ok {
+		// The last call of the cycle named a block that this segment went
+		// on to sync itself, after the block that named it: the hook made no
+		// call for the blocks that followed (the documented way to end the
+		// sync at the end of a chain), there is nothing to continue with. (A
+		// block reported before the one that names it was reached by another
+		// link; the chain goes on from there.)
+		if pos, ok := segSeen[*segSync.nextSyncCid]; ok && pos > namedAt {
 			break
 		}
 
